@@ -160,40 +160,58 @@ pub struct StoreCfg {
     pub cache_capacity: u64,
     pub flush_every_ms: Option<u64>,
     pub mode_low_space: bool,
+    /// optional keys left out of the JSON (the parser's defaults apply): bit 0 cache_capacity, 1 flush_every_ms, 2 mode,
+    /// 3 use_compression
+    pub omit: u8,
 }
 
 impl StoreCfg {
     pub fn default_cfg() -> Self {
-        StoreCfg { cache_capacity: 1 << 20, flush_every_ms: None, mode_low_space: false }
+        StoreCfg { cache_capacity: 1 << 20, flush_every_ms: None, mode_low_space: false, omit: 0 }
     }
     pub fn gen(rng: &mut Prng) -> Self {
-        StoreCfg {
+        let mut c = StoreCfg {
             cache_capacity: *rng.pick(&[1024u64, 4096, 150_000, 1 << 20, 1 << 30]),
             flush_every_ms: *rng.pick(&[None, None, Some(50), Some(12_000)]),
             mode_low_space: rng.chance(1, 4),
+            omit: 0,
+        };
+        // derived from the values already drawn (keeps the draw sequence of every later choice unchanged)
+        let h = c.cache_capacity.wrapping_mul(0x9e37_79b9_7f4a_7c15) ^ c.flush_every_ms.unwrap_or(7) ^ ((c.mode_low_space as u64) << 17);
+        if (h >> 20) % 3 == 0 {
+            c.omit = ((h >> 24) & 0xf) as u8;
         }
+        c
     }
     pub fn to_json(&self) -> Value {
-        json!({"cache_capacity": self.cache_capacity, "flush_every_ms": self.flush_every_ms, "low_space": self.mode_low_space})
+        json!({"cache_capacity": self.cache_capacity, "flush_every_ms": self.flush_every_ms, "low_space": self.mode_low_space, "omit": self.omit})
     }
     pub fn from_json(v: &Value) -> Self {
         StoreCfg {
             cache_capacity: v["cache_capacity"].as_u64().unwrap_or(1 << 20),
             flush_every_ms: v["flush_every_ms"].as_u64(),
             mode_low_space: v["low_space"].as_bool().unwrap_or(false),
+            omit: v["omit"].as_u64().unwrap_or(0) as u8,
         }
     }
     /// JSON tree configuration as accepted by PmtreeConfig::from_str.
     pub fn tree_config(&self, path: &std::path::Path) -> String {
-        json!({
-            "path": path.to_str().unwrap(),
-            "temporary": false,
-            "cache_capacity": self.cache_capacity,
-            "flush_every_ms": self.flush_every_ms,
-            "mode": if self.mode_low_space { "LowSpace" } else { "HighThroughput" },
-            "use_compression": false
-        })
-        .to_string()
+        let mut m = serde_json::Map::new();
+        m.insert("path".into(), json!(path.to_str().unwrap()));
+        m.insert("temporary".into(), json!(false));
+        if self.omit & 1 == 0 {
+            m.insert("cache_capacity".into(), json!(self.cache_capacity));
+        }
+        if self.omit & 2 == 0 {
+            m.insert("flush_every_ms".into(), json!(self.flush_every_ms));
+        }
+        if self.omit & 4 == 0 {
+            m.insert("mode".into(), json!(if self.mode_low_space { "LowSpace" } else { "HighThroughput" }));
+        }
+        if self.omit & 8 == 0 {
+            m.insert("use_compression".into(), json!(false));
+        }
+        Value::Object(m).to_string()
     }
 }
 
